@@ -31,7 +31,8 @@ Definition can_bstr (v : gv) : bool := match v with GBytes _ | GNilBytes => true
 Definition is_alg_typed (v : gv) : bool := match v with GInt KAlg _ => true | _ => false end.
 
 (* normalizeLabel: any Go integer kind -> int64 (uint64 wraps like int64(v)) *)
-Definition wrap64 (n : Z) : Z := if n <=? 9223372036854775807 then n else n - 18446744073709551616.
+(* int64(v): two's-complement wrap-around (the identity on every int64 value) *)
+Definition wrap64 (n : Z) : Z := (n + 9223372036854775808) mod 18446744073709551616 - 9223372036854775808.
 Definition normalize_label (l : gv) : option gv :=
   match l with
   | GInt k n => if is_signed_kind k || is_unsigned_kind k then Some (GInt KInt64 (wrap64 n)) else None
